@@ -19,9 +19,9 @@ LEVEL_NOTE = "Trusted: Lean kernel + std axioms, harness, generators. Modelled: 
 TECHNIQUE = "Lean 4 proof (serializer well-formedness and authentication) + differential histories + spec monitor on emitted bytes"
 DESIGN_REF = "§5 C06"
 
-EMPH = dict(p_rq=0.5, p_reply=0.25, p_writer=0.12, p_tick=0.03, p_big=0.35, p_proxystate=0.3, p_dup=0.1, p_allcodes=0.15, p_eap=0.1,
+EMPH = dict(rwout_p=0.7, p_badreply=0.1, p_rq=0.45, p_reply=0.3, p_writer=0.12, p_tick=0.03, p_big=0.35, p_proxystate=0.3, p_dup=0.1, p_allcodes=0.15, p_eap=0.1,
             rewrites=0.9, grow=0.7, ttl=0.7, p_hidden=0.2, p_replyuser=0.3, min_steps=6, max_steps=18)
-_gen_world = WP.make_gen_run(ID, EMPH, 200, 4000)
+_gen_world = WP.make_gen_run(ID, EMPH, 300, 5000)
 
 
 def gen_run(exe, rng, tier):
